@@ -4,7 +4,6 @@ import json, os, re, subprocess, sys, tempfile
 from decimal import Decimal
 from verifkit.core import *
 
-PROPOSED = os.path.join(WORK, "proposed_findings_C12.json")
 HARNESS_FILES = HARNESS_BASE + ["lab_*.go", "src_*.go", "c12_*.go"]
 
 THEOREMS = [
@@ -24,7 +23,9 @@ THEOREMS = [
     "Cog.Sem.JSOut.C12_foreign_definition_overwritten",
     "Cog.Sem.JSOut.C12_carried_over_counterexample_constant_reference",
     "Cog.Sem.JSOut.C12_intersection_emitted_empty",
-    "Cog.Sem.JSOut.C12_emission_counterexample_foreign_cycle",
+    "Cog.Sem.JSOut.C12_emission_terminates",
+    "Cog.Sem.JSOut.C12_refs_resolve_total",
+    "Cog.Sem.JSOut.C12_prefix_loop_never_terminated",
     "Cog.Sem.JSOut.describes_sound",
     "Cog.Sem.JSOut.emitDefs_closed",
 ]
@@ -346,11 +347,7 @@ def replay(c, hb):
 
 def main():
     c = Check("C12")
-    if os.path.exists(PROPOSED):   # findings proposed by this check and not merged yet
-        have = {f["id"] for f in c.known}
-        for f in json.load(open(PROPOSED)).get("findings", []):
-            if f.get("property") == "C12" and f["id"] not in have:
-                c.known.append(f)
+    # known findings come from /verif/known_findings.json only (Check loads the entries of this property)
     c.trusted = [
         "Lean 4.33 kernel; axioms per theorem in obligation_list",
         "hand-written model lean/Cog/Sem/JsonSchemaOut.lean of internal/jennies/jsonschema/schema.go (formatType, the foreign-object closure loop) and of the OpenAPI wrapper, tied on every run by `jsemit`: the files the real pipeline emits for lab cases (3 input formats) and the jennies' output on random multi-package IR must equal the model's document (canonical JSON)",
@@ -370,7 +367,9 @@ def main():
         replay(c, hb)
     quick = c.tier == "quick"
     run_stream(c, hb, "c12-pinned")
-    run_stream(c, hb, "c12-hang", ms=2000 if quick else 5000)
+    # the recursive foreign object that used to keep GenerateSchema running forever (fixed in 56f489a): one real
+    # run under a watchdog; a relapse answers `hang`, disagrees with the (terminating) model and matches no finding
+    run_stream(c, hb, "c12-hang", ms=3000 if quick else 8000)
     run_stream(c, hb, "c12-labpinned")
     run_stream(c, hb, "c12-ir", n=400 if quick else 6000, seed=c.seed, tier=c.tier, malformed=1)
     n, docs = (16, 24) if quick else (300, 40)
@@ -381,7 +380,7 @@ def main():
         c.cov["c12"]["c12-lab(default)"] = c.cov["c12"].pop("c12-lab")
     run_stream(c, hb, "c12-lab", n=n // 2, docs=docs, seed=c.seed + 1000, tier=c.tier, switches="-any")
     c.finish("cd /verif/lean && lake build Cog.Props.C12 drv && lake env lean <#print axioms of the C12 theorems>",
-             "pinned sets (one per recorded finding) + one watchdog run of the non-terminating emission; random multi-package IR (every Kind, cross-package references, same-named objects) through the jennies vs the Lean emitter; Src terms x 3 input formats through the real pipeline: emitted JSON Schema / OpenAPI files vs the Lean emitter, independent loaders, $ref / presence / carried-over oracles, and every source-valid document re-encoded by real generated Go code validated against the emitted schema (santhosh + python jsonschema vs Lean jsValid; hypotheses of the partial theorem evaluated per document). non-trivial = emitted document > 600 bytes that the model reproduces, or validated document with >= 6 nested values")
+             "pinned sets (one per recorded finding) + one watchdog run of the formerly non-terminating emission (foreign cycles are always run under a watchdog); random multi-package IR (every Kind, cross-package references, same-named objects) through the jennies vs the Lean emitter; Src terms x 3 input formats through the real pipeline: emitted JSON Schema / OpenAPI files vs the Lean emitter, independent loaders, $ref / presence / carried-over oracles, and every source-valid document re-encoded by real generated Go code validated against the emitted schema (santhosh + python jsonschema vs Lean jsValid; hypotheses of the partial theorem evaluated per document). non-trivial = emitted document > 600 bytes that the model reproduces, or validated document with >= 6 nested values")
 
 
 main()
